@@ -100,12 +100,6 @@ def FullStatement_output_unique {P : Type} (o : Ops P) : Prop :=
   ∀ pk m pi1 pi2, verifyWith o pk pi1 m = .ok true → verifyWith o pk pi2 m = .ok true →
     outputOf pi1 = outputOf pi2
 
-theorem outputOf_append {P : Type} (gb cb sb : Bytes) (hg : gb.length = 32) (hc : cb.length = 16)
-    (hs : sb.length = 32) (_o : Ops P) : outputOf (gb ++ cb ++ sb) = gb := by
-  unfold outputOf
-  rw [pad_of_len_ge _ (by simp [proveSize, hg, hc, hs]), List.append_assoc]
-  exact List.take_left' hg
-
 /-- Output uniqueness fails as soon as some non-zero point `T` is annihilated by the
     challenge of some nonce: the honest proof and the shifted proof are both accepted
     and carry different outputs. (On the implementation: searcher key
